@@ -45,6 +45,10 @@ type varVerdict struct {
 	Reads int      `json:"reads"`
 	Write int      `json:"writes"`
 	Bad   []string `json:"bad,omitempty"` // sites that break the best candidate lock
+	// update sites that are not a single critical section: the stored value (split) or the decision to
+	// store (stale) derives from a load of the variable in another critical section of its lock
+	Split   []string `json:"split,omitempty"`
+	Counter bool     `json:"counter"` // every write site is a one-statement read-modify-write
 }
 
 type output struct {
@@ -62,6 +66,7 @@ type output struct {
 	Notes          []string     `json:"notes"`
 	TypeErrors     []string     `json:"type_errors"`
 	Undisciplined  int          `json:"undisciplined"`
+	SplitUpdates   int          `json:"split_updates"`
 }
 
 func holds(f *fact, lock string) bool {
@@ -127,6 +132,12 @@ func main() {
 				fmt.Printf("    %s\n", b)
 			}
 		}
+		if len(v.Split) > 0 {
+			fmt.Printf("SPLIT-UPDATE %s\n", v.Name)
+			for _, b := range v.Split {
+				fmt.Printf("    %s\n", b)
+			}
+		}
 	}
 	_ = token.NoPos
 }
@@ -152,7 +163,7 @@ func analyzeRepo(repoDir string, excs []exception, verbose bool) (*output, []str
 	if err != nil {
 		return nil, nil, fmt.Errorf("load: %v", err)
 	}
-	a := &analyzer{l: l, fset: l.fset, facts: map[string]*fact{}, memo: map[string]bool{}, retMemo: map[string][]oset{}, retBusy: map[string]bool{},
+	a := &analyzer{l: l, fset: l.fset, facts: map[string]*fact{}, memo: map[string]bool{}, summ: map[string]map[string]loadRec{}, retMemo: map[string][]oset{}, retBusy: map[string]bool{},
 		staticEnvs: map[*funcInfo]*env{}, entrySeen: map[*funcInfo]bool{}, configMeth: map[string]string{}, readonlyMeth: map[string]string{}, usedConfig: map[string]bool{}, notes: map[string]bool{}}
 	for _, e := range excs {
 		switch e.Kind {
@@ -330,6 +341,24 @@ func analyzeRepo(repoDir string, excs []exception, verbose bool) (*output, []str
 			vv.Bad = bestBad
 			out.Undisciplined++
 		}
+		vv.Counter = vv.Write > 0
+		for _, f := range fs {
+			if !f.Write {
+				continue
+			}
+			for _, is := range f.Issues {
+				if is.Lock == vv.Lock || !vv.OK {
+					f.Kind = kSplit
+					vv.Split = append(vv.Split, fmt.Sprintf("%s store %s in %s uses what was read at %s in another critical section of %s", is.What, f.Site, f.Fn, is.Load, is.Lock))
+				}
+			}
+			if f.Kind != kRMW {
+				vv.Counter = false
+			}
+		}
+		if len(vv.Split) > 0 {
+			out.SplitUpdates++
+		}
 		out.Vars = append(out.Vars, vv)
 	}
 	out.Exceptions = excs
@@ -364,6 +393,9 @@ func sortFacts(fs []*fact) {
 		if a.Write != b.Write {
 			return !a.Write
 		}
+		if a.Kind != b.Kind {
+			return a.Kind < b.Kind
+		}
 		return lockStr(a) < lockStr(b)
 	})
 }
@@ -391,7 +423,7 @@ func leanFile(out *output, varNames []string) string {
 	}
 	b.WriteString("/- GENERATED by /verif/harness/locks (the C09 translator) from the Go sources of the repository under test.\n")
 	b.WriteString("   Do not edit: `bin/check C09` rewrites this file on every run.\n")
-	b.WriteString("   One fact per access site: variable, write?, locks held (lock, exclusive?), file:line. -/\n")
+	b.WriteString("   One fact per access site: variable, write?, kind (0 read, 1 one-statement read-modify-write, 2 plain store,\n   3 split update), locks held (lock, exclusive?), file:line. -/\n")
 	b.WriteString("import OxyModel.Model.Locks\n\nnamespace Locks.Generated\nopen Locks\n\n")
 	b.WriteString("/-- lock classes, indexed by position -/\ndef lockNames : List String := [\n")
 	for i, n := range out.LockClasses {
@@ -416,12 +448,36 @@ func leanFile(out *output, varNames []string) string {
 				b.WriteString(",\n   ")
 			}
 			first = false
-			fmt.Fprintf(&b, "⟨%d, %v, [%s], %q⟩", v, f.Write, strings.Join(ls, ", "), f.Site)
+			fmt.Fprintf(&b, "⟨%d, %v, %d, [%s], %q⟩", v, f.Write, f.Kind, strings.Join(ls, ", "), f.Site)
 			gi++
 		}
 		fmt.Fprintf(&b, "]%s\n", comma(v, len(varNames)))
 	}
 	b.WriteString("]\n\n/-- all facts -/\ndef facts : List Fact := groups.flatten\n\n")
+	var cv []string
+	for _, v := range out.Vars {
+		if v.Counter && v.OK && len(v.Split) == 0 {
+			cv = append(cv, fmt.Sprint(v.ID))
+		}
+	}
+	fmt.Fprintf(&b, "/-- variables all of whose write sites are one-statement read-modify-writes -/\ndef counterVars : List Nat := [%s]\n\n", strings.Join(cv, ", "))
+	b.WriteString("/-- a sample execution of the first write site of the table: take its locks, write, give them back -/\ndef exampleExec : List Ev := [")
+	for _, f := range out.Facts {
+		if !f.Write || len(f.Locks) == 0 {
+			continue
+		}
+		var ev []string
+		for _, l := range f.Locks {
+			ev = append(ev, fmt.Sprintf(".acq 1 %d %v", lockID[l[0]], l[1] == "W"))
+		}
+		ev = append(ev, fmt.Sprintf(".acc 1 %d true", varID[f.Var]))
+		for i := len(f.Locks) - 1; i >= 0; i-- {
+			ev = append(ev, fmt.Sprintf(".rel 1 %d %v", lockID[f.Locks[i][0]], f.Locks[i][1] == "W"))
+		}
+		b.WriteString(strings.Join(ev, ", "))
+		break
+	}
+	b.WriteString("]\n\n")
 	fmt.Fprintf(&b, "def numVars : Nat := %d\ndef numLocks : Nat := %d\ndef numFacts : Nat := %d\n\nend Locks.Generated\n", len(varNames), len(out.LockClasses), len(out.Facts))
 	return b.String()
 }
